@@ -58,19 +58,22 @@ RECURSIVE TagMatch(_,_)
 TagMatch(obs, exp) ==
    IF exp = <<>> THEN obs = <<>>
    ELSE IF Head(exp).free THEN TagMatch(obs, Tail(exp)) \/ (obs # <<>> /\ TagMatch(Tail(obs), Tail(exp)))
-   ELSE obs # <<>> /\ Head(obs) = Head(exp).s /\ TagMatch(Tail(obs), Tail(exp))
+   ELSE obs # <<>> /\ Head(obs) \in {Head(exp).s, Head(exp).alt} /\ TagMatch(Tail(obs), Tail(exp))
 TagClauses(o, blk, bi, ri, otags) ==
    LET xcols  == XCols(blk.cols)
        xcells == XC(blk, bi, ri, ri)
        nt   == Len(o.tags)
        sub  == [k \in DOMAIN o.tags |-> SubstSim(o.tags[k], xcols, xcells)]
-       exp  == [k \in DOMAIN o.tags |-> [s |-> Str(sub[k]), free |-> HasPh(sub[k])]]
-               \o [j \in DOMAIN blk.tags |-> [s |-> Str(blk.tags[j]), free |-> FALSE]]
+       \* alt: a PARAMETRIZED tag is made a valid tag name by behave (Tag.make_name drops e.g. a literal ">"):
+       \* the rendered tag is accepted verbatim or normalised
+       exp  == [k \in DOMAIN o.tags |-> [s |-> Str(sub[k]), free |-> HasPh(sub[k]),
+                                         alt |-> IF HasColPh(o.tags[k], xcols) THEN Str(MakeName(sub[k])) ELSE Str(sub[k])]]
+               \o [j \in DOMAIN blk.tags |-> [s |-> Str(blk.tags[j]), free |-> FALSE, alt |-> Str(blk.tags[j])]]
        refd == {c \in DOMAIN xcols : \E k \in DOMAIN o.tags : \E x \in DOMAIN o.tags[k] : o.tags[k][x] = Ph(xcols[c])}
    IN IF \E c \in refd : ~TagSafe(xcells[c]) THEN {}    \* asserted for tag-safe values only (Tag.make_name)
       ELSE IF TagMatch(otags, exp) THEN {}
       ELSE IF (\E k \in DOMAIN exp : exp[k].free) \/ Len(otags) # Len(exp) THEN {<<"C06.tags", "tags", JoinTags(exp)>>}
-      ELSE UNION {IF otags[k] = exp[k].s THEN {}
+      ELSE UNION {IF otags[k] \in {exp[k].s, exp[k].alt} THEN {}
                   ELSE IF k > nt THEN {<<"C06.tags", "block-tags", JoinTags(exp)>>}
                   ELSE IF ~TagSafe(o.tags[k]) /\ otags[k] = Str(MakeName(o.tags[k]))
                        THEN {<<"C06.unchanged_text", "tag.literal-chars-dropped", exp[k].s>>}
